@@ -148,6 +148,18 @@ CHECKS['C14'] = dict(
     note=TB + 'the E2 interpreter (lin.py, loops.py, interp.py, models.py), the relation table mm.py, two axioms about alloc (Box<[u8]>::from / clone preserve the length); three trusted lemmas (see evidence.assumptions)',
     design_ref='5/C14')
 
+CHECKS['C18'] = dict(
+    category='proof', technique='abstract interpretation of monomorphic MIR (E2) with a byte-equality coverage ghost (mcai/eqg.py): symbolic operands, exact linear-integer store, Houdini loop invariants over the ghost interval; EQ-TRUE / EQ-FALSE entailment obligations at every return; release semantics, 2 (quick) / 10 (thorough) configurations',
+    text="Decides the property: for is_equal_raw (under its documented contract), is_equal, is_prefix and is_suffix with symbolic "
+         "operands of every length, address and content, `true` is returned only when the length condition of the specification "
+         "holds and the interval of bytes compared equal (built only by successful 4-/2-/1-byte comparisons at one displacement) "
+         "covers the whole specified range -- so no byte of the tail is skipped and the right sub-slice is compared -- and `false` "
+         "only when a length condition fails or a failed comparison lies inside the range; the result is decided on every path, "
+         "both answers occur, and every read stays inside the operands (READ). is_equal/is_prefix/is_suffix use the summary of "
+         "is_equal_raw that its own root proves.",
+    note=TB + 'the E2 interpreter plus eqg.py/eqspec.py; axiom: two k-byte loads are equal iff their k bytes are pairwise equal; operands analysed as distinct regions',
+    design_ref='5/C18')
+
 NOT_YET = "check not built yet (build in progress, see DESIGN.md section 8 build order)"
 NA = {}
 
